@@ -845,6 +845,231 @@ func cmdC16Race(args []string) {
 	if !res.tooMany() {
 		raceMulti(res, col, rng, *seed, *rounds/2+1)
 	}
+	col.Reset()
+	if !res.tooMany() {
+		churn(res, col, rng, *seed, *rounds)
+	}
+}
+
+// within runs fn in its own goroutine and reports whether it returned within d (a wedged node blocks its callers for ever).
+func within(d time.Duration, fn func()) bool {
+	done := make(chan struct{})
+	go func() {
+		defer close(done)
+		fn()
+	}()
+	select {
+	case <-done:
+		return true
+	case <-time.After(d):
+		return false
+	}
+}
+
+// churn: notices keep arriving at a node while unrelated sockets of that node are opened and closed (datagram sockets
+// and the ephemeral sockets of concurrent dials).  UnreachBroker.tla: the node's broker hands every notice to every
+// subscribed socket and waits for all of them, so a socket that closes must keep taking notices until the broker has
+// processed its un-subscription.  Oracle: the sockets that stay open receive a notice for every datagram they sent to an
+// unbound service, during and after the churn, and every later dial to an unbound service is abandoned by its notice
+// within the bound.
+func churn(res *Result, col *collector, rng *rand.Rand, seed int64, rounds int) {
+	ids := []string{"ch-A", "ch-B"}
+	m, err := buildMesh(chainTopo(2), ids, mesh.Opts{RouteUpdate: 300 * time.Millisecond, MaxHops: 8}, seed+1700)
+	if err != nil || !waitConverged(m, 40*time.Second) {
+		res.inconclusive("churn mesh: %v", err)
+
+		return
+	}
+	defer m.StopAll()
+	a := m.Nodes[ids[0]].N
+	obs := newObservers()
+	var steady []*sock
+	known := map[string]bool{}
+	for i := 0; i < 2; i++ {
+		s, err := openSock(a, ids[0], fmt.Sprintf("st%d", i), obs, 0)
+		if err != nil {
+			res.inconclusive("churn: %v", err)
+
+			return
+		}
+		steady = append(steady, s)
+		known[s.Svc] = true
+	}
+	var sentSteady [2]int64
+	var churnOps, dialsDone, dialsSlow int64
+	stop := make(chan struct{})
+	var wgSteady, wgChurn sync.WaitGroup
+	for i, s := range steady {
+		wgSteady.Add(1)
+		go func(i int, s *sock) {
+			defer wgSteady.Done()
+			for k := 0; ; k++ {
+				select {
+				case <-stop:
+					return
+				default:
+				}
+				if s.sendTo(a, ids[1], "nosvc", []byte("steady")) == nil {
+					atomic.AddInt64(&sentSteady[i], 1)
+				}
+				time.Sleep(time.Duration(20+k%7*15) * time.Microsecond)
+			}
+		}(i, s)
+	}
+	perChurner := 6 * rounds
+	for c := 0; c < 6; c++ {
+		wgChurn.Add(1)
+		cseed := rng.Int63()
+		go func(c int) {
+			defer wgChurn.Done()
+			r := rand.New(rand.NewSource(cseed))
+			for k := 0; k < perChurner; k++ {
+				pc, err := a.ListenPacket("")
+				if err != nil {
+					return
+				}
+				done := make(chan struct{})
+				if ch := pc.SubscribeUnreachable(done); ch != nil {
+					go func() {
+						for range ch {
+						}
+					}()
+				}
+				_, _ = pc.WriteTo([]byte("churn"), a.NewAddr(ids[1], "gone"))
+				if r.Intn(3) > 0 {
+					time.Sleep(time.Duration(r.Intn(300)) * time.Microsecond)
+				}
+				_ = pc.Close() // the socket goes away while notices (its own and the others') are arriving
+				close(done)
+				atomic.AddInt64(&churnOps, 1)
+			}
+		}(c)
+	}
+	dialRounds := rounds/8 + 1
+	for d := 0; d < 4; d++ {
+		wgChurn.Add(1)
+		go func() {
+			defer wgChurn.Done()
+			for k := 0; k < dialRounds; k++ {
+				ctx, cancel := context.WithTimeout(context.Background(), 8*time.Second)
+				t0 := time.Now()
+				c, err := a.DialContext(ctx, ids[1], "nolisten", nil)
+				cancel()
+				if err == nil && c != nil {
+					_ = c.Close()
+				}
+				if time.Since(t0) >= dialThreshold {
+					atomic.AddInt64(&dialsSlow, 1)
+				}
+				atomic.AddInt64(&dialsDone, 1)
+			}
+		}()
+	}
+	// wait for the churn to finish; a node whose broker is wedged blocks the churners for ever: watch the progress
+	finished := make(chan struct{})
+	go func() {
+		wgChurn.Wait()
+		close(finished)
+	}()
+	stalled := false
+	last, lastChange := int64(-1), time.Now()
+	for waiting := true; waiting; {
+		select {
+		case <-finished:
+			waiting = false
+		case <-time.After(100 * time.Millisecond):
+			cur := atomic.LoadInt64(&churnOps) + atomic.LoadInt64(&dialsDone)
+			if cur != last {
+				last, lastChange = cur, time.Now()
+			} else if time.Since(lastChange) > 12*time.Second {
+				stalled, waiting = true, false
+			}
+		}
+	}
+	close(stop)
+	wgSteady.Wait()
+	total := int(atomic.LoadInt64(&sentSteady[0]) + atomic.LoadInt64(&sentSteady[1]))
+	countSteady := func() int {
+		n := 0
+		for _, x := range obs.notes {
+			if known[x.Svc] {
+				n++
+			}
+		}
+
+		return n
+	}
+	ok := obs.waitUntil(30*time.Second, func() bool { return countSteady() >= total })
+	obs.mu.Lock()
+	gotSteady := countSteady()
+	obs.mu.Unlock()
+	rp := map[string]any{"scenario": "churn", "seed": seed, "socket_open_close_cycles": atomic.LoadInt64(&churnOps), "dials": atomic.LoadInt64(&dialsDone)}
+	res.eval(fmt.Sprintf("churn|%v|%v", stalled, ok))
+	res.add("churn_socket_cycles", int(atomic.LoadInt64(&churnOps)))
+	res.add("churn_dials", int(atomic.LoadInt64(&dialsDone)))
+	res.add("churn_steady_sent", total)
+	res.add("churn_steady_noticed", gotSteady)
+	if !ok {
+		if lastEventAge(col) < 3*time.Second {
+			res.inconclusive("churn: notices still moving")
+
+			return
+		}
+		res.violate("C16:notices-stop-after-socket-churn", fmt.Sprintf("two sockets that stayed open sent %d datagrams to an unbound service while other sockets of their node were opened and closed "+
+			"(%d cycles, %d dials; churn stalled: %v); they received %d 'service unknown' notices and the data plane has been idle for %v: the node no longer delivers notices",
+			total, atomic.LoadInt64(&churnOps), atomic.LoadInt64(&dialsDone), stalled, gotSteady, lastEventAge(col).Round(time.Millisecond)), rp)
+	} else if stalled {
+		res.inconclusive("churn: socket churn stalled although all notices arrived")
+	}
+	if gotSteady > total {
+		res.violate("C16:unexpected-notice", fmt.Sprintf("churn: the steady sockets sent %d datagrams and received %d notices", total, gotSteady), rp)
+	}
+	if n := atomic.LoadInt64(&dialsSlow); n > 0 && ok {
+		res.violate("C16:dial-not-abandoned-after-socket-churn", fmt.Sprintf("%d of %d concurrent dials to an unbound service took %v or longer while notices were flowing normally",
+			n, atomic.LoadInt64(&dialsDone), dialThreshold), rp)
+	}
+	// afterwards: a further datagram from a socket that has been open all the time, and a further dial
+	n0 := len(notesAt(obs, ids[0], steady[0].Svc))
+	res.eval("churn|after|send")
+	_ = steady[0].sendTo(a, ids[1], "after", []byte("after"))
+	got := obs.waitUntil(10*time.Second, func() bool {
+		for _, x := range obs.notes {
+			if x.Svc == steady[0].Svc && x.N.ToService == "after" {
+				return true
+			}
+		}
+
+		return false
+	})
+	if !got {
+		if lastEventAge(col) < 3*time.Second {
+			res.inconclusive("churn: data plane still busy after the churn")
+
+			return
+		}
+		res.violate("C16:notices-stop-after-socket-churn", fmt.Sprintf("after %d socket open/close cycles and %d dials on its node, a socket that was open all the time (it had received %d notices before) "+
+			"sent a datagram to an unbound service and no notice reached it within 10 s", atomic.LoadInt64(&churnOps), atomic.LoadInt64(&dialsDone), n0), rp)
+	}
+	res.eval("churn|after|dial")
+	var o dialOutcome
+	evd := col.Len()
+	if !within(20*time.Second, func() { o = timedDial(col, a, ids[0], ids[1], "nolisten", known) }) {
+		produced := false
+		for _, r := range col.Since(evd) {
+			if r["ev"] == "dp_unknown" && evStr(r, "tosvc") == "nolisten" {
+				produced = true
+			}
+		}
+		res.violate("C16:dial-not-abandoned-after-socket-churn", fmt.Sprintf("a dial to an unbound service issued after the socket churn had not returned after 20 s "+
+			"(the addressed node answered 'service unknown': %v; new sockets cannot be opened on a node whose unreachable broker no longer accepts subscriptions)", produced), rp)
+	} else {
+		judgeDial(res, "dial to an unbound service after socket churn", o, rp)
+		if o.err != nil && o.noticeAt < 0 && o.took >= dialThreshold && !got {
+			res.violate("C16:dial-not-abandoned-after-socket-churn", fmt.Sprintf("a dial to an unbound service issued after the socket churn ran for %v (%v): no notice reaches the node's sockets any more",
+				o.took.Round(time.Millisecond), o.err), rp)
+		}
+	}
+	res.count("churn_rounds")
 }
 
 // raceMulti: several deliverers at once (two neighbours and a sender on the listener's own node): the events of different
